@@ -393,6 +393,14 @@ func c18check(c *vf.Ctx, tx *wire.MsgTx, label string) {
 			}
 			if !same {
 				c.Failf("InPlaceSort/order-differs-from-Sort", "%s: InPlaceSort gives inputs %s outputs %s, Sort gives inputs %s outputs %s", desc(), c18inKeys(cp.TxIn), c18outKeys(cp.TxOut), c18inKeys(s.TxIn), c18outKeys(s.TxOut))
+			} else if a, b := c18serTx(cp), c18serTx(s); !bytes.Equal(a, b) {
+				// "sorting in place yields the same order": the two results list the
+				// same elements; where elements have equal keys but differ otherwise
+				// (signature script, sequence, token data) the sequences must still
+				// be the same
+				c.Failf("InPlaceSort/tie-order-differs-from-Sort", "%s: InPlaceSort and Sort order key-equal elements differently: in place %x, copy %x", desc(), a, b)
+			} else {
+				c.Inc("inplace_and_copy_serialise_identically")
 			}
 		} else {
 			// Sort itself failed a clause: judge the in-place result on its own.
